@@ -68,7 +68,13 @@ long verif_memfile_size(long fid) { return (long) mf_read(fid).size(); }
 unsigned char verif_memfile_byte(long fid, long i) { static long cf = -1; static std::string c; static long csz = -1; std::string d; struct stat sb; 
     if (cf != fid || stat(verif_memfile_path(fid), &sb) != 0 || sb.st_size != csz) { c = mf_read(fid); cf = fid; csz = (long) c.size(); }
     return i < (long) c.size() ? (unsigned char) c[i] : 0; }
-void verif_memfile_setbyte(long fid, long i, unsigned char b) { std::string d = mf_read(fid); if ((long) d.size() <= i) d.resize(i + 1, 0); d[i] = (char) b; mf_write(fid, d); }
+void verif_memfile_setbyte(long fid, long i, unsigned char b) {
+    // in place (the formatted summary harnesses build files of several hundred kilobytes byte by byte)
+    FILE* f = std::fopen(verif_memfile_path(fid), "r+b"); if (!f) f = std::fopen(verif_memfile_path(fid), "w+b");
+    std::fseek(f, 0, SEEK_END); long sz = std::ftell(f);
+    for (; sz < i; ++sz) std::fputc(0, f);
+    std::fseek(f, i, SEEK_SET); std::fputc(b, f); std::fclose(f);
+}
 void verif_memfile_truncate(long fid, long n) { std::string d = mf_read(fid); if ((long) d.size() > n) d.resize(n); mf_write(fid, d); }
 void verif_memfile_rewind(long) { }
 long verif_memfile_gpos(long) { return -1; }   /* not observable natively */
